@@ -353,16 +353,13 @@ def wrapper_rule(ctx, p):
             ok = not bad and not extra
             det = f"mis-bound: {[(a, b.get(a)) for a in bad]}" if bad else f"{len(b)} arguments bound to the convolver's own tables and the inputs"
             # every return is the kernel's result
-            res = None
-            for n in m.body_nodes():
-                if isinstance(n, ast.Assign) and n.value is calls[0] and isinstance(n.targets[0], ast.Name):
-                    res = n.targets[0].id
             for r in wire.returns_of(m):
                 v = r.value
                 if wrapped:
-                    good = isinstance(v, ast.Call) and norm_text(v.func) == "Array2D" and {a: norm_text(x) for a, x in wire.kw(v).items()} == {"values": res, "mask": f"{m.params[0]}.mask"} if res else                         (isinstance(v, ast.Call) and norm_text(v.func) == "Array2D" and wire.kw(v).get("values") is calls[0] and norm_text(wire.kw(v).get("mask")) == f"{m.params[0]}.mask")
+                    good = isinstance(v, ast.Call) and norm_text(v.func) == "Array2D" and set(wire.kw(v)) == {"values", "mask"} and wire.is_value_of(m, wire.kw(v)["values"], calls[0]) \
+                        and norm_text(wire.kw(v)["mask"]) == f"{m.params[0]}.mask"
                 else:
-                    good = v is calls[0] or (res is not None and norm_text(v) == res)
+                    good = wire.is_value_of(m, v, calls[0])
                 if not good:
                     ok = False
                     det = f"return {norm_text(v)[:70]} is not the result of {kern}"
